@@ -373,11 +373,11 @@ def worker(ctx):
 
     derivation = st.one_of(
         st.tuples(st.just("with_seed"), st.sampled_from(SEEDS)),
-        st.tuples(st.just("with_seed"), st.sampled_from(SEEDS)),
         st.tuples(st.just("with_shots"), st.integers(1, 3)),
         st.tuples(st.just("with_shot_offset"), st.integers(0, 2)),
         st.tuples(st.just("with_shot_increment"), st.integers(1, 2)),
         st.tuples(st.just("with_simulator"), st.sampled_from(SIMS)),
+        st.tuples(st.sampled_from(sorted(SIM_OF_METHOD)), st.none()),
         st.tuples(st.sampled_from(sorted(SIM_OF_METHOD)), st.none()),
     )
 
@@ -408,6 +408,24 @@ def worker(ctx):
             if self.skip:
                 return 0
             r = self.s.derive(src, d[0], d[1])
+            self._report()
+            return r
+
+        @rule(target=instances, src=instances, d=derivation)
+        def derive_more(self, src, d):
+            if self.skip:
+                return 0
+            r = self.s.derive(src, d[0], d[1])
+            self._report()
+            return r
+
+        @rule(target=instances, src=instances, m=st.sampled_from(sorted(SIM_OF_METHOD) + ["with_simulator"]),
+              a=st.sampled_from(SIMS))
+        def switch_simulator_then_run(self, src, m, a):
+            if self.skip:
+                return 0
+            r = self.s.derive(src, m, a if m == "with_simulator" else None)
+            self.s.run(r)
             self._report()
             return r
 
